@@ -108,6 +108,7 @@ def gen_cases(tier, seed):
                       "eri": eri, "spidx": int(spidx) if rk == "signed-perm" else -1,
                       "classes": classes + ["R:" + rk, "det:%+d" % int(round(np.linalg.det(R))), dcls, "types:" + "".join(tp)] + (["with-eri"] if eri else []),
                       "cost": 50 + (ntot ** 4 / 30 if eri else 0)})
+    cases += bases.argrep_variants("C12", seed, tier, cases, 8, ok=lambda c: "shells" in c and c.get("kind") in (None, "whole", "kernel", "perm", "real"))  # constructor arguments in other in-memory representations
     return cases
 
 
